@@ -28,8 +28,8 @@ N == Len(Rec)
 SafeFilters == {"safe", "wrap_safe", "viacall", "errkind"}
 SafeFunctions == {"super", "mk_safe"}
 
-VARIABLES l, frames, xae, bad
-vars == <<l, frames, xae, bad>>
+VARIABLES l, frames, xae, bad, mode
+vars == <<l, frames, xae, bad, mode>>
 
 Ev == Rec[l]
 Top == frames[Len(frames)]
@@ -63,17 +63,20 @@ SameInstr(code, e) ==
 
 Flag(rule) == IF bad = "" THEN bad' = rule /\ PrintT(<<"FLAG", ToJson([line |-> l, rule |-> rule])>>) ELSE UNCHANGED bad
 
-Init == l = 1 /\ frames = <<>> /\ xae = "any" /\ bad = ""
+Init == l = 1 /\ frames = <<>> /\ xae = "any" /\ bad = "" /\ mode = ""
 
 Reset == /\ Ev.e = "reset" /\ frames = <<>> /\ l' = l + 1
-         /\ frames' = <<>> /\ xae' = Ev.xae /\ UNCHANGED bad
+         /\ frames' = <<>> /\ xae' = Ev.xae /\ mode' = Ev.mode /\ UNCHANGED bad
 
 Enter ==
   /\ Ev.e = "enter" /\ l' = l + 1 /\ Ev.c >= 1 /\ Ev.c <= Len(Chunks) /\ Chunks[Ev.c].h = Ev.h
   /\ LET kind == IF frames = <<>> THEN "main" ELSE Pending(Top).op IN
      /\ \/ frames = <<>> /\ Ev.sd = 0 /\ Ev.ld = 0 /\ Ev.pd = 0
         \/ /\ frames # <<>> /\ Top.have /\ kind \in CallOps
-           /\ CASE kind = "RenderBlock" -> Ev.sd = AbsSd(Top) /\ Ev.ld = AbsLd(Top) /\ Ev.pd = AbsPd(Top) /\ Ev.cd = Top.cd
+           \* a block shares the state of its caller; when a single block is being rendered (render_block) the block
+           \* asked for writes into its own buffer with the enclosing captures set aside
+           /\ CASE kind = "RenderBlock" -> Ev.sd = AbsSd(Top) /\ Ev.ld = AbsLd(Top) /\ Ev.cd = Top.cd
+                                            /\ (Ev.pd = AbsPd(Top) \/ (mode = "render_block" /\ Ev.pd = 0))
                 [] kind = "CallFunction" -> Ev.sd = AbsSd(Top) - 1 /\ Ev.ld = AbsLd(Top) /\ Ev.pd = 0 /\ Ev.cd = Top.cd
                                             /\ Pending(Top).a = <<"super">>
                 [] kind = "Include" -> Ev.sd = 0 /\ Ev.ld = 0 /\ Ev.pd = 0 /\ Ev.cd = Top.cd
@@ -81,7 +84,7 @@ Enter ==
      /\ frames' = Append(frames, [c |-> Ev.c, f |-> Frame0, have |-> FALSE, kind |-> kind,
                                   bsd |-> Ev.sd, bld |-> Ev.ld, bpd |-> Ev.pd, ae |-> Ev.ae, cd |-> Ev.cd])
      /\ IF xae # "any" /\ (IF Ev.ae THEN "true" ELSE "false") # xae THEN Flag("AutoescapeAsConfigured") ELSE UNCHANGED bad
-  /\ UNCHANGED xae
+  /\ UNCHANGED <<xae, mode>>
 
 Op ==
   /\ Ev.e = "op" /\ frames # <<>> /\ l' = l + 1
@@ -89,12 +92,12 @@ Op ==
   /\ \E g \in (IF Top.have THEN Succ(CodeOf(Top), Top.f) ELSE {Frame0}) :
        /\ Observes(Top, g, Ev)
        /\ frames' = [frames EXCEPT ![Len(frames)] = [@ EXCEPT !.f = g, !.have = TRUE]]
-  /\ UNCHANGED <<xae, bad>>
+  /\ UNCHANGED <<xae, bad, mode>>
 
 Text ==
   /\ Ev.e = "text" /\ frames # <<>> /\ l' = l + 1
   /\ Pending(Top).op = "WriteText" /\ Ev.cap = (AbsPd(Top) > 0)
-  /\ UNCHANGED <<frames, xae, bad>>
+  /\ UNCHANGED <<frames, xae, bad, mode>>
 
 Sink ==
   /\ Ev.e = "sink" /\ frames # <<>> /\ l' = l + 1
@@ -104,7 +107,7 @@ Sink ==
   /\ IF Ev.ae # Top.ae THEN Flag("AutoescapeStableInFrame")
      ELSE IF Ev.esc # (Ev.ae /\ ~Ev.safe) THEN Flag("SinkRule")
      ELSE UNCHANGED bad
-  /\ UNCHANGED <<frames, xae>>
+  /\ UNCHANGED <<frames, xae, mode>>
 
 MintAllowed ==
   \/ frames = <<>>                                   \* API-level body of render_component
@@ -119,7 +122,7 @@ MintAllowed ==
 Mint ==
   /\ Ev.e = "mint" /\ l' = l + 1
   /\ IF MintAllowed THEN UNCHANGED bad ELSE Flag("MintRule")
-  /\ UNCHANGED <<frames, xae>>
+  /\ UNCHANGED <<frames, xae, mode>>
 
 Leave ==
   /\ Ev.e = "leave" /\ frames # <<>> /\ l' = l + 1
@@ -128,7 +131,7 @@ Leave ==
        /\ Len(g.stack) + Top.bsd = Ev.sd /\ Len(g.loops) + Top.bld = Ev.ld /\ g.pd + Top.bpd = Ev.pd
   /\ IF Ev.sd # Top.bsd \/ Ev.ld # Top.bld \/ Ev.pd # Top.bpd THEN Flag("BalancedAtLeave") ELSE UNCHANGED bad
   /\ frames' = SubSeq(frames, 1, Len(frames) - 1)
-  /\ UNCHANGED xae
+  /\ UNCHANGED <<xae, mode>>
 
 \* the render ended: normally with every frame left, or with an error that every open frame can raise / propagate
 End ==
@@ -136,7 +139,7 @@ End ==
   /\ IF Ev.ok THEN frames = <<>>
      ELSE \A i \in 1..Len(frames) : frames[i].have /\ \E g \in Succ(CodeOf(frames[i]), frames[i].f) : g.st = "err"
   /\ frames' = <<>>
-  /\ UNCHANGED <<xae, bad>>
+  /\ UNCHANGED <<xae, bad, mode>>
 
 Next == l <= N /\ (Reset \/ Enter \/ Op \/ Text \/ Sink \/ Mint \/ Leave \/ End)
 Spec == Init /\ [][Next]_vars
